@@ -369,7 +369,7 @@ struct Verdict
     std::set<int> needed;          // files that must be loaded
     std::vector<Node> failingRoot; // root imports that cannot be satisfied
     int cycleLen = 0;
-    bool fileCycleOnly = false, connected = false;
+    bool fileCycleOnly = false, fileCycle = false, connected = false;
 };
 static Verdict judge(const Graph &g, bool permissive)
 {
@@ -392,6 +392,7 @@ static Verdict judge(const Graph &g, bool permissive)
     }
     std::set<int> reach;
     bool fc = ref.fileCycle(&reach);
+    v.fileCycle = fc;
     v.connected = int(reach.size()) == int(g.f.size());
     if (anyFail || anyImpCycle) {
         v.expect = EX_FALSE;
@@ -430,26 +431,40 @@ static uintptr_t g_chain[NCHAIN];
 static volatile int g_nchain;
 static void dieUnguarded();
 static volatile sig_atomic_t inHandler = 0;
+static volatile int hstage = 0;
+static volatile uintptr_t hlo = 0, hcur = 0;
 // Not instrumented: it copies raw stack memory (poisoned red zones included).
 __attribute__((no_sanitize("address", "undefined"))) static void handler(int, siginfo_t *si, void *ucv)
 {
-    if (inHandler) _exit(97); // a fault inside the handler itself
+    if (inHandler) { // a fault inside the handler itself
+        char b[200];
+        int k = snprintf(b, sizeof b, "HANDLER-FAULT stage=%d addr=%p sp=%lx lo=%lx hi=%lx cur=%lx\n", int(hstage), si->si_addr, (unsigned long)g_sp, (unsigned long)hlo, (unsigned long)stackTop, (unsigned long)hcur);
+        if (write(2, b, size_t(k)) < 0) {}
+        _exit(97);
+    }
     inHandler = 1;
+    hstage = 1;
     ucontext_t *uc = static_cast<ucontext_t *>(ucv);
     g_pc = uintptr_t(uc->uc_mcontext.gregs[REG_RIP]);
     g_sp = uintptr_t(uc->uc_mcontext.gregs[REG_RSP]);
     g_addr = uintptr_t(si->si_addr);
-    // lowest readable stack address: on an overflow the stack pointer (or the faulting address) is already in the guard gap
-    uintptr_t a = g_sp, b = g_addr;
-    uintptr_t lo = a, hi = stackTop;
-    bool nearSp = b + 65536 >= a && b < a + 65536;
-    if (nearSp) lo = (((a > b ? a : b) | 4095) + 1);
+    // lowest readable stack address: on an overflow the stack pointer (and the faulting address) are already in the guard gap
+    uintptr_t lo = g_sp & ~uintptr_t(4095), hi = stackTop;
+    {
+        unsigned char vec;
+        int tries = 0;
+        while (lo < hi && tries++ < 4096 && mincore(reinterpret_cast<void *>(lo), 4096, &vec) != 0) lo += 4096;
+        if (lo < g_sp) lo = g_sp;
+    }
+    hlo = lo;
+    hstage = 2;
     int n = 0;
     if (lo < hi && hi - lo < (64u << 20)) {
         uintptr_t p = (lo + 7) & ~uintptr_t(7);
-        for (; n < NWORDS && p + 8 <= hi; p += 8) g_words[n++] = *reinterpret_cast<uintptr_t *>(p);
+        for (; n < NWORDS && p <= hi - 8; p += 8) { hcur = p; g_words[n++] = *reinterpret_cast<uintptr_t *>(p); }
     }
     g_nwords = n;
+    hstage = 3;
     int m = 0;
     if (lo < hi && hi - lo < (64u << 20)) {
         // start at the frame pointer; when the innermost frames belong to code without frame pointers the chain is broken there:
@@ -459,7 +474,8 @@ __attribute__((no_sanitize("address", "undefined"))) static void handler(int, si
         for (int attempt = 0; attempt < 4096 && m < 64; ++attempt) {
             m = 0;
             uintptr_t bp = start;
-            while (m < NCHAIN && bp >= lo && bp + 16 <= hi && (bp & 7) == 0) {
+            while (m < NCHAIN && bp >= lo && bp <= hi - 16 && (bp & 7) == 0) {
+                hcur = bp;
                 uintptr_t ret = reinterpret_cast<uintptr_t *>(bp)[1];
                 uintptr_t nb = reinterpret_cast<uintptr_t *>(bp)[0];
                 if (ret < textLo || ret >= textHi) break;
@@ -470,14 +486,17 @@ __attribute__((no_sanitize("address", "undefined"))) static void handler(int, si
             if (m >= 64) break;
             // next candidate
             bool found = false;
-            for (; scan + 16 <= hi; scan += 8) {
+            hstage = 4;
+            for (; scan <= hi - 16; scan += 8) {
+                hcur = scan;
                 uintptr_t nb = reinterpret_cast<uintptr_t *>(scan)[0], ret = reinterpret_cast<uintptr_t *>(scan)[1];
-                if (nb > scan && nb + 16 <= hi && (nb & 7) == 0 && ret >= textLo && ret < textHi) { start = scan; scan += 8; found = true; break; }
+                if (nb > scan && nb <= hi - 16 && (nb & 7) == 0 && ret >= textLo && ret < textHi) { start = scan; scan += 8; found = true; break; }
             }
             if (!found) break;
         }
     }
     g_nchain = m;
+    hstage = 5;
     inHandler = 0;
     if (armed) { armed = 0; siglongjmp(jb, 1); }
     dieUnguarded();
@@ -619,7 +638,7 @@ static const std::string &scratch()
     return g_scratch;
 }
 static std::vector<std::string> g_onDisk; // content cache of w/f<j>.cellml ("\x01" = absent)
-static void writeFiles(const std::vector<std::optional<std::string>> &texts)
+static bool writeFilesOnce(const std::vector<std::optional<std::string>> &texts)
 {
     std::string dir = scratch() + "/w/";
     if (g_onDisk.size() < texts.size()) g_onDisk.resize(texts.size(), "\x01");
@@ -633,11 +652,22 @@ static void writeFiles(const std::vector<std::optional<std::string>> &texts)
         else {
             if (exists && want.empty()) { unlink(path.c_str()); exists = false; }
             int fd = open(path.c_str(), exists ? O_WRONLY : (O_WRONLY | O_CREAT | O_EXCL), 0644);
-            if (fd < 0 || write(fd, want.data(), want.size()) != ssize_t(want.size()) || (exists && ftruncate(fd, off_t(want.size())) != 0)) { fprintf(stderr, "cannot write %s\n", path.c_str()); exit(3); }
-            close(fd);
+            bool ok = fd >= 0 && write(fd, want.data(), want.size()) == ssize_t(want.size()) && (!exists || ftruncate(fd, off_t(want.size())) == 0);
+            if (fd >= 0) close(fd);
+            if (!ok) return false;
         }
         g_onDisk[j] = want;
     }
+    return true;
+}
+static void writeFiles(const std::vector<std::optional<std::string>> &texts)
+{
+    if (writeFilesOnce(texts)) return;
+    // the directory was disturbed from outside (somebody cleaning build/scratch): start it afresh, once
+    std::string cmd = "rm -rf '" + scratch() + "/w'; mkdir -p '" + scratch() + "/w' '" + scratch() + "/empty'";
+    if (system(cmd.c_str()) != 0) {}
+    g_onDisk.assign(g_onDisk.size(), "\x01");
+    if (!writeFilesOnce(texts)) { fprintf(stderr, "cannot write the scenario files under %s: %s\n", scratch().c_str(), strerror(errno)); exit(3); }
 }
 
 // =========================================================================================== the scenario runner
@@ -661,7 +691,8 @@ static ModelPtr modelOfEntity(const ParentedEntityPtr &e)
 static std::string blindSpot(const std::string &path)
 {
     if (path.find("Cck>") != std::string::npos) return "units-used-by-an-encapsulated-child-of-an-imported-component";
-    if (path.find("c>Uc>") != std::string::npos || path.find("ck>Uc>") != std::string::npos) return "units-referenced-by-concrete-units-that-are-themselves-reached-through-a-concrete-entity";
+    // fetchUnits does not look into concrete units reached from a concrete component, nor into the concrete children of concrete units
+    if (path.find("Cc>Uc>") != std::string::npos || path.find("Uc>Uc") != std::string::npos) return "units-referenced-by-concrete-units-that-are-themselves-reached-through-a-concrete-entity";
     return "";
 }
 
@@ -686,6 +717,7 @@ struct Session
     std::string base;
     json detail;
     std::set<std::string> crashedSteps;
+    std::string inputClass = "acyclic-input"; // appended to crash signatures: what the reference sees in the input
     volatile int *progress = nullptr; // shared with the parent of a forked child
 
     Session(Ctx &c_, Mode m, bool guarded_, const std::string &sit) : c(c_), mode(m), guarded(guarded_), situation(sit)
@@ -709,7 +741,7 @@ struct Session
         crashedSteps.insert(name);
         json d = detail;
         d["step"] = name;
-        report(c, std::string("step=") + name + ":" + cs, d);
+        report(c, std::string("step=") + name + ":" + cs + ":" + inputClass, d);
         c.outcome(std::string("crash-in:") + name);
         return false;
     }
@@ -878,7 +910,7 @@ struct Session
                     std::string fp = firstUnresolvedPath(g), b = blindSpot(fp);
                     json d = {{"issues", issuesJson(imp)}, {"case", detail}, {"path", fp}};
                     if (!b.empty()) report(c, ph + "resolve:true-but-hasUnresolvedImports:blind-spot=" + b, d);
-                    else if (fp == "?") report(c, sig(ph + "resolve:true-but-hasUnresolvedImports:every-import-in-the-closure-has-a-model"), d);
+                    else if (fp == "?") report(c, ph + "resolve:true-but-hasUnresolvedImports:every-import-in-the-closure-has-a-model", d);
                     else report(c, sig(ph + "resolve:true-but-hasUnresolvedImports:path=" + fp), d);
                 }
                 if (un == 1) r = 2; // true, yet unresolved
@@ -896,7 +928,7 @@ struct Session
             }
         } else {
             if (imp->issueCount() == 0) report(c, sig(ph + "resolve:false-without-any-issue"), detail);
-            else if (v.expect == EX_FALSE && judgeTruth) {
+            else if (v.expect == EX_FALSE && judgeTruth && !v.fileCycle) { // (with files importing from each other the library may blame the file-level cycle)
                 Ref ref(g, !mode.strict);
                 bool onFailing = false, rootCovered = false;
                 for (size_t i = 0; i < imp->issueCount(); ++i) {
@@ -1045,6 +1077,8 @@ static void scenario(Ctx &c, const Graph &g, Mode mode, const std::string &situa
         Session s(cc, mode, guarded, situation);
         s.detail = detail;
         s.progress = progress;
+        s.inputClass = v.crashProne ? "ordinary-units-cycle-reachable" : v.impCycleReachable ? "import-cycle-reachable" : v.fileCycle ? "files-import-from-each-other" : "acyclic-input";
+        if (!mode.strict && situation.find("cellml-1.1") != std::string::npos) s.inputClass += "+1.1-file-read-by-permissive-importer";
         if (mode.disk) writeFiles(texts);
         if (!s.parseRoot(render(g, 0))) return;
         s.newImporter();
@@ -1186,12 +1220,14 @@ static void repairSequence(Ctx &c, const Graph &g0, const Verdict &v0, const Fau
     Verdict vf = judge(f.g, !mode.strict);
     std::string situation = f.name + ":repair=" + VAR[variant] + (freshRoot ? "+root-parsed-again" : "+same-root-object") + (reuseObjects ? "+library-objects-reused" : "");
     auto textsF = textsOf(f.g), texts0 = textsOf(g0);
-    json detail = {{"graph", graphJson(g0)}, {"faulted", graphJson(f.g)}, {"mode", mode.tag()}, {"situation", situation}};
+    json detail = {{"graph", graphJson(g0)}, {"faulted", graphJson(f.g)}, {"mode", mode.tag()}, {"situation", situation},
+                   {"ordinary_units_cycle_reachable", vf.crashProne}, {"import_cycle_reachable", vf.impCycleReachable}};
     bool judged = variant != 0 && !reuseObjects;
     auto body = [&](Ctx &cc, bool guarded, volatile int *progress) {
         Session s(cc, mode, guarded, situation);
         s.detail = detail;
         s.progress = progress;
+        s.inputClass = vf.impCycleReachable ? "import-cycle-reachable" : "acyclic-input";
         if (mode.disk) writeFiles(textsF);
         if (!s.parseRoot(render(g0, 0))) return;
         s.newImporter();
@@ -1350,8 +1386,9 @@ int main(int argc, char **argv)
 #else
         rl.rlim_cur = 128u << 10;
 #endif
+        if (const char *e = getenv("C07_STACK_KB")) rl.rlim_cur = rlim_t(atol(e)) << 10;
         setrlimit(RLIMIT_STACK, &rl);
-        guard::install();
+        if (!getenv("C07_NOGUARD")) guard::install(); // with C07_NOGUARD and --noguard the sanitizer's own report is printed
     }
     auto S = [](const std::string &name, std::vector<int> nc, std::vector<int> nu, int maxImports = -1, bool childOpt = true, bool fixedLocal = false) {
         Shape s;
@@ -1369,6 +1406,7 @@ int main(int argc, char **argv)
     S("h2", {1, 2}, {1, 2});
     S("u3", {0, 0, 0}, {3, 1, 1});
     S("d3", {1, 1, 0}, {0, 3, 1});
+    S("e3", {0, 0, 0}, {1, 3, 1});
     S("k3", {2, 2, 2}, {2, 2, 2}, 4, false, true);
     std::vector<Family> fs;
     for (auto &kv : g_shapes) {
